@@ -148,7 +148,8 @@ def replay_roundtrip(case):
 # ---------------------------------------------------------------------------
 # input forms
 
-TIMES = [(0, 0, 0.0), (12, 0, 0.0), (23, 59, 59.999), (6, 30, 15.25)]
+TIMES = [(0, 0, 0.0), (12, 0, 0.0), (23, 59, 59.999), (6, 30, 15.25), (23, 59, 59.999998), (7, 12, 59.999996),
+         (0, 0, 0.000001)]
 
 
 def form_instants(tier):
@@ -163,7 +164,7 @@ def form_instants(tier):
 FORMS = ["args", "tuple", "list", "fracday", "fracday_tuple", "short", "long", "long_lower",
          "short_upper", "copy", "set_args", "set_tuple", "set_list", "set_copy", "datetime",
          "date", "floats", "jde_float", "cid_epoch", "cid_args", "cid_tuple", "cid_list",
-         "cid_datetime", "cid_date"]
+         "cid_datetime", "cid_date", "frac_hour", "frac_minute", "frac_hour_tuple"]
 
 
 def build_form(form, y, m, d, h, mi, s):
@@ -222,6 +223,12 @@ def build_form(form, y, m, d, h, mi, s):
         if form == "cid_datetime":
             return Epoch.check_input_date(dt).jde()
         return Epoch.check_input_date(dt.date()).jde()
+    if form == "frac_hour":
+        return Epoch(y, m, d, h + mi / 60.0 + s / 3600.0).jde()
+    if form == "frac_hour_tuple":
+        return Epoch((y, m, d, h + mi / 60.0 + s / 3600.0)).jde()
+    if form == "frac_minute":
+        return Epoch(y, m, d, h, mi + s / 60.0).jde()
     if form == "floats":
         return Epoch(y, float(m), float(d), float(h), float(mi), s).jde()
     if form == "jde_float":
@@ -464,7 +471,7 @@ def replay_bfs(case):
 # holding the same JDE (differential oracle: anything remembered across calls,
 # e.g. a cached date or sidereal time, is exposed).
 
-HIST_EVENTS = [("get_date",), ("get_full_date",), ("dow",), ("doy",), ("year",), ("mjd",), ("sidereal",),
+HIST_EVENTS = [("get_date",), ("get_full_date",), ("get_date_utc",), ("get_full_date_leap", 30), ("dow",), ("doy",), ("year",), ("mjd",), ("sidereal",),
                ("leap",), ("julian",), ("str",), ("hash",),
                ("set_jde", 2299160.5), ("set_date", (1987, 6, 19.5)), ("set_date", (-500, 2, 29.25)),
                ("set_tuple", (2024, "Feb", 29, 6, 30, 15.25)), ("set_copy", 1234567.891),
@@ -482,6 +489,11 @@ def epoch_apply(e, ev):
         e.get_date()
     elif k == "get_full_date":
         e.get_full_date()
+    elif k == "get_date_utc":
+        e.get_date(utc=True)
+        e.get_full_date(utc=True)
+    elif k == "get_full_date_leap":
+        e.get_full_date(leap_seconds=ev[1])
     elif k == "dow":
         e.dow()
         e.dow(as_string=True)
@@ -539,6 +551,19 @@ def check_epoch_history(case):
             va, vf = epoch_views(e), epoch_views(fresh)
         except Exception as ex:
             out.append("views after history %r raised %r" % (done, ex))
+            break
+        # ... and absolutely, against the calendar model: state shared by ALL objects (a class-level memo keyed
+        # on the value) would mislead the fresh object in the same way
+        try:
+            y_, m_, d_, h_, mi_, s_ = va[2]
+            inst = (Fraction(fast().n(y_, m_, d_)) + Fraction(h_, 24) + Fraction(mi_, 1440) + Fraction(s_) / 86400)
+            dev = abs(float(inst - (Fraction(e._jde) + Fraction(1, 2))))
+            if dev > 1e-8:
+                out.append("after history %r on Epoch(%r) get_full_date() = %r is %.3g day from the object's JDE %r"
+                           % (done, case["start"], va[2], dev, e._jde))
+                break
+        except Exception as ex:
+            out.append("after history %r: get_full_date() = %r is not a civil instant (%r)" % (done, va[2], ex))
             break
         if va != vf:
             diff = [i for i in range(len(va)) if va[i] != vf[i]]
